@@ -526,6 +526,11 @@ func (m *Matcher) match(pattern interface{}, fact interface{}, bindings Bindings
 			fxs := make(map[interface{}]bool)
 			fxa := make(map[int]interface{})
 			for i, y := range fa {
+				// Numbers inside arrays need the same
+				// coercion that match() applies to its
+				// arguments (an ECMAScript action can
+				// leave int64s in an array).
+				y = fudge(y)
 				switch y.(type) {
 				case float64, string, bool, nil:
 					fxs[y] = true
@@ -539,6 +544,7 @@ func (m *Matcher) match(pattern interface{}, fact interface{}, bindings Bindings
 
 			// iterate pattern values and match with fact values
 			for _, x := range xs {
+				x = fudge(x)
 				switch x.(type) {
 				case float64, string, bool, nil:
 					_, found := fxs[x]
